@@ -64,14 +64,14 @@ PROPS["C14"] = dict(
     engine="E2",
     parts=[dict(bin="e2_bitvec", opts={"prop": "C14", "depth": 3}, tag="dirty-q", tiers=["quick"]),
            dict(bin="e2_bitvec", opts={"prop": "C14", "depth": 5}, tag="dirty-t", tiers=["thorough"]),
-           dict(bin="e2_bfv", opts={"prop": "C14", "depth": 3}, tag="dirty-q", tiers=["quick"]),
+           dict(bin="e2_bfv", opts={"prop": "C14", "depth": 3, "words": "u8,usize"}, tag="dirty-q", tiers=["quick"]),
            dict(bin="e2_bfv", opts={"prop": "C14", "depth": 4, "words": "u8,usize"}, tag="dirty-t", tiers=["thorough"]),
            dict(bin="e2_bfv", opts={"prop": "C14", "depth": 3, "words": "u16,u32,u64,u128"}, tag="dirty-t-other-words", tiers=["thorough"]),
            # copy into dirty storage, chunked writes and apply_in_place on dirty backends (the C10 engine, relabelled)
            dict(bin="e1_bulk", opts={"relabel": "C10:C14"}, tag="bulk-writers")],
     rule="BFS over operation histories from dirty from_raw_parts seeds (garbage beyond len: all ones / alternating / single 1 right after the last valid bit / garbage only in spare words; 0-2 spare words); unit = (seed, first operation)",
     alphabet="same operation alphabet as C06/C05, started from dirty storage",
-    bound={"quick": "all histories of <= 3 operations from every dirty seed", "thorough": "bit vectors: all histories of <= 5 operations; bit-field vectors: <= 4 operations for u8 and usize (every width class), <= 3 for u16/u32/u64/u128"},
+    bound={"quick": "all histories of <= 3 operations from every dirty seed (bit-field vectors: word types u8 and usize; u16 and the others in the thorough tier)", "thorough": "bit vectors: all histories of <= 5 operations; bit-field vectors: <= 4 operations for u8 and usize (every width class), <= 3 for u16/u32/u64/u128"},
     oracle="readers: every observation of C06/C05 equals the clean model in every state; writers: on every transition the raw words before/after differ only inside the elements the operation is documented to write (growth: the new elements; shrink: the discarded elements); the bulk writers (copy into a destination with a dirty tail and spare word, chunked writes, apply_in_place) are enumerated by the C10 engine with the same raw-word footprint check",
     assumptions=STRICT,
     mc_note=MC_NOTE,
